@@ -12,7 +12,7 @@ Output conventions (what the proofs see):
 Anything outside the subset raises Unsupported: the class is then omitted from the generated
 file and every obligation depending on it breaks (reported by the check).
 """
-import ast, sys, os, json, hashlib
+import ast, copy, sys, os, json, hashlib
 
 class Unsupported(Exception):
     pass
@@ -122,6 +122,249 @@ def normalize_returns(body, kind):
             return out
         out.append(st)
     return out
+
+
+
+# --------------------------------------------------------------------------------------------
+# Inlining of private helpers: `self._foo(args)` (a method of the same class) and `_foo(args)` (a function of the same module) are
+# replaced by their bodies before translation, so that extracting a helper out of propagate()/clock()/put() is a harmless rewrite
+# for the translator too.  Fail closed: anything not understood is left in place and rejected later as an unsupported expression.
+def _simple_arg(a):
+    return isinstance(a, (ast.Name, ast.Constant)) or (isinstance(a, ast.Attribute) and _simple_arg(a.value))
+
+def _tail_returns(body, ret):
+    """replace the `return e` statements in tail position by `ret = e`; None if a return is anywhere else or missing on a path"""
+    if not body: return None
+    out = list(body[:-1])
+    for st in out:
+        if any(isinstance(n, ast.Return) for n in ast.walk(st)): return None
+    last = body[-1]
+    if isinstance(last, ast.Return):
+        if last.value is None: return None
+        return out + [ast.Assign(targets=[ast.Name(id=ret, ctx=ast.Store())], value=last.value, lineno=0)]
+    if isinstance(last, ast.If):
+        b, o = _tail_returns(last.body, ret), _tail_returns(last.orelse, ret)
+        if b is None or o is None: return None
+        return out + [ast.If(test=last.test, body=b, orelse=o)]
+    return None
+
+class Inliner:
+    def __init__(self, methods, funcs):
+        self.methods, self.funcs, self.k = methods, funcs, 0
+
+    def callee(self, call):
+        f = call.func
+        if call.keywords: return None
+        if isinstance(f, ast.Attribute) and isinstance(f.value, ast.Name) and f.value.id == 'self' and f.attr in self.methods:
+            m = self.methods[f.attr]
+            if not m.args.args or m.args.args[0].arg != 'self': return None
+            return m, [a.arg for a in m.args.args[1:]]
+        if isinstance(f, ast.Attribute) and isinstance(f.value, ast.Name) and f.attr in self.methods \
+           and any(isinstance(d, ast.Name) and d.id == 'staticmethod' for d in self.methods[f.attr].decorator_list):
+            m = self.methods[f.attr]                      # ClassName._helper(args) / self._helper(args) on a @staticmethod
+            return m, [a.arg for a in m.args.args]
+        if isinstance(f, ast.Name) and f.id in self.funcs:
+            m = self.funcs[f.id]
+            return m, [a.arg for a in m.args.args]
+        return None
+
+    def expand(self, call):
+        """-> (prelude statements, replacement expression) or None"""
+        c = self.callee(call)
+        if c is None: return None
+        m, params = c
+        if m.args.vararg or m.args.kwarg or m.args.kwonlyargs or m.args.defaults or len(params) != len(call.args): return None
+        if any(isinstance(n, (ast.FunctionDef, ast.Lambda, ast.Yield, ast.YieldFrom, ast.Global, ast.Nonlocal, ast.While, ast.Try)) for st in m.body for n in ast.walk(st)):
+            return None
+        self.k += 1; tag = '__i%d' % self.k
+        body = [st for st in copy.deepcopy(m.body) if not (isinstance(st, ast.Expr) and isinstance(st.value, ast.Constant))]
+        body = normalize_returns(body, 'func')
+        ret = 'ret' + tag
+        body = _tail_returns(body, ret)
+        if body is None: return None
+        names, pre = {}, []
+        for prm, a in zip(params, call.args):
+            if _simple_arg(a): names[prm] = a
+            else:
+                v = prm + tag; pre.append(ast.Assign(targets=[ast.Name(id=v, ctx=ast.Store())], value=a, lineno=0)); names[prm] = ast.Name(id=v, ctx=ast.Load())
+        # parameters must not be re-assigned in the callee (the substitution would be wrong)
+        stored = {n.id for st in body for n in ast.walk(st) if isinstance(n, ast.Name) and isinstance(n.ctx, ast.Store)}
+        if stored & set(params): return None
+        for loc in stored:
+            if loc != ret: names[loc] = ast.Name(id=loc + tag, ctx=ast.Load())
+        class R(ast.NodeTransformer):
+            def visit_Name(self, n):
+                r = names.get(n.id)
+                if r is None: return n
+                if isinstance(n.ctx, ast.Load): return copy.deepcopy(r)
+                return ast.Name(id=r.id, ctx=ast.Store()) if isinstance(r, ast.Name) else n
+        body = [R().visit(st) for st in body]
+        # a body that is just `ret = e`: pure expression
+        if len(body) == 1 and isinstance(body[0], ast.Assign) and not pre:
+            return [], body[0].value
+        return pre + body, ast.Name(id=ret, ctx=ast.Load())
+
+    def rewrite_expr(self, e, pre):
+        """inline the calls inside expression e (innermost first); prelude statements are appended to pre"""
+        inl = self
+        class V(ast.NodeTransformer):
+            def visit_Call(self, n):
+                n = self.generic_visit(n)
+                r = inl.expand(n)
+                if r is None: return n
+                p, x = r
+                p2 = inl.block(p)                 # helpers calling helpers
+                pre.extend(p2)
+                return inl.rewrite_expr(x, pre) if any(isinstance(c, ast.Call) and inl.callee(c) for c in ast.walk(x)) else x
+        return V().visit(e)
+
+    def block(self, body, depth=0):
+        out = []
+        for st in body:
+            pre = []
+            if isinstance(st, ast.If):
+                st = ast.If(test=self.rewrite_expr(st.test, pre), body=self.block(st.body), orelse=self.block(st.orelse))
+            elif isinstance(st, ast.For):
+                st = ast.For(target=st.target, iter=self.rewrite_expr(st.iter, pre), body=self.block(st.body), orelse=self.block(st.orelse), lineno=0)
+            elif isinstance(st, (ast.Assign, ast.AugAssign, ast.Expr, ast.Return, ast.Assert)):
+                st = copy.deepcopy(st)
+                for fld in ('value', 'test'):
+                    if getattr(st, fld, None) is not None: setattr(st, fld, self.rewrite_expr(getattr(st, fld), pre))
+            out += pre + [st]
+        return [ast.fix_missing_locations(x) for x in out]
+
+
+def inline_helpers(fdef, cdef, tree):
+    """a copy of fdef whose calls to private helpers of the same class / module are inlined"""
+    methods = {f.name: f for f in (cdef.body if cdef is not None else []) if isinstance(f, ast.FunctionDef) and f.name != fdef.name
+               and f.name not in ('put', 'get', 'prepare', 'getWidth', 'clock', 'propagate', '__init__')}
+    funcs = {f.name: f for f in (tree.body if tree is not None else []) if isinstance(f, ast.FunctionDef) and f.name != fdef.name}
+    if not any(isinstance(n, ast.Call) for st in fdef.body for n in ast.walk(st)): return fdef
+    inl = Inliner(methods, funcs)
+    new = copy.deepcopy(fdef)
+    try:
+        new.body = inl.block(new.body)
+    except RecursionError:
+        return fdef
+    return new if inl.k else fdef
+
+
+def unroll_literal_loops(fdef):
+    """`for a, b in ((x1, y1), (x2, y2)): body` (the table written in place or bound once to a local) becomes the bodies in sequence with the
+    targets replaced by the table entries; entries must be names / self attributes / constants and the body must not rebind the targets."""
+    tables = {}
+    stores = {}
+    for st in fdef.body:
+        for n in ast.walk(st):
+            if isinstance(n, ast.Name) and isinstance(n.ctx, ast.Store): stores[n.id] = stores.get(n.id, 0) + 1
+    def literal_table(e):
+        if not isinstance(e, (ast.Tuple, ast.List)) or not e.elts: return None
+        rows = []
+        for r in e.elts:
+            if isinstance(r, (ast.Tuple, ast.List)) and all(_simple_arg(x) for x in r.elts): rows.append(list(r.elts))
+            elif _simple_arg(r): rows.append([r])
+            else: return None
+        return rows
+    for st in fdef.body:
+        for n in ast.walk(st):
+            if isinstance(n, ast.Assign) and len(n.targets) == 1 and isinstance(n.targets[0], ast.Name) and stores.get(n.targets[0].id) == 1:
+                t = literal_table(n.value)
+                if t is not None: tables[n.targets[0].id] = t
+    changed = [False]; used = set()
+    def block(body):
+        out = []
+        for st in body:
+            if isinstance(st, ast.For) and not st.orelse:
+                rows = literal_table(st.iter)
+                if rows is None and isinstance(st.iter, ast.Name) and st.iter.id in tables: rows = tables[st.iter.id]
+                tg = [st.target] if isinstance(st.target, ast.Name) else list(st.target.elts) if isinstance(st.target, ast.Tuple) else None
+                ok = rows is not None and tg is not None and all(isinstance(x, ast.Name) for x in tg) and all(len(r) == len(tg) for r in rows)
+                if ok:
+                    names = [x.id for x in tg]
+                    inner = [n for s2 in st.body for n in ast.walk(s2)]
+                    if any(isinstance(n, (ast.Break, ast.Continue)) for n in inner) or \
+                       any(isinstance(n, ast.Name) and isinstance(n.ctx, ast.Store) and n.id in names for n in inner): ok = False
+                if ok:
+                    for r in rows:
+                        m = dict(zip(names, r))
+                        class R(ast.NodeTransformer):
+                            def visit_Name(self, n):
+                                return copy.deepcopy(m[n.id]) if n.id in m and isinstance(n.ctx, ast.Load) else n
+                        out += block([ast.fix_missing_locations(R().visit(copy.deepcopy(s2))) for s2 in st.body])
+                    if isinstance(st.iter, ast.Name): used.add(st.iter.id)
+                    changed[0] = True
+                    continue
+                st = ast.For(target=st.target, iter=st.iter, body=block(st.body), orelse=[], lineno=0)
+            elif isinstance(st, ast.If):
+                st = ast.If(test=st.test, body=block(st.body), orelse=block(st.orelse))
+            out.append(ast.fix_missing_locations(st))
+        return out
+    new = copy.deepcopy(fdef)
+    new.body = block(new.body)
+    if not changed[0]: return fdef
+    # drop the table bindings that are no longer read
+    def loads(name): return sum(1 for st in new.body for n in ast.walk(st) if isinstance(n, ast.Name) and n.id == name and isinstance(n.ctx, ast.Load))
+    def drop(body):
+        out = []
+        for st in body:
+            if isinstance(st, ast.Assign) and len(st.targets) == 1 and isinstance(st.targets[0], ast.Name) and st.targets[0].id in used and loads(st.targets[0].id) == 0:
+                continue
+            if isinstance(st, ast.If): st = ast.If(test=st.test, body=drop(st.body) or [ast.Pass()], orelse=drop(st.orelse))
+            elif isinstance(st, ast.For): st = ast.For(target=st.target, iter=st.iter, body=drop(st.body) or [ast.Pass()], orelse=[], lineno=0)
+            out.append(ast.fix_missing_locations(st))
+        return out
+    new.body = drop(new.body)
+    return new
+
+
+def propagate_port_aliases(fdef, ci):
+    """`x = self.<port>` with x assigned exactly once and read only later in the same block: the reads of x become `self.<port>` and the
+    assignment disappears (a port attribute is never rebound inside propagate()/clock(), so the two spellings denote the same wire)."""
+    ports = set(ci.inports) | set(ci.outports) | set(ci.optional)
+    # a list attribute that is never rebound in the method (`self.data = ...`): a local naming it names the same (mutable) object
+    rebound = {t.attr for st in fdef.body for n in ast.walk(st) if isinstance(n, (ast.Assign, ast.AugAssign))
+               for t in (n.targets if isinstance(n, ast.Assign) else [n.target])
+               if isinstance(t, ast.Attribute) and isinstance(t.value, ast.Name) and t.value.id == 'self'}
+    def init_is_list(a):
+        v = ci.attr_init.get(a)
+        return isinstance(v, (ast.List, ast.ListComp)) or (isinstance(v, ast.BinOp) and isinstance(v.left, ast.List))
+    ports |= {a for a in ci.attrs if init_is_list(a) and a not in rebound}
+    stores = {}
+    for st in fdef.body:
+        for n in ast.walk(st):
+            if isinstance(n, ast.Name) and isinstance(n.ctx, ast.Store): stores[n.id] = stores.get(n.id, 0) + 1
+    changed = [False]
+    def loads_in(stmts, name):
+        return sum(1 for st in stmts for n in ast.walk(st) if isinstance(n, ast.Name) and n.id == name and isinstance(n.ctx, ast.Load))
+    total_loads = lambda name: loads_in(fdef.body, name)
+    def block(body):
+        out = []
+        i = 0
+        body = list(body)
+        while i < len(body):
+            st = body[i]
+            if isinstance(st, ast.Assign) and len(st.targets) == 1 and isinstance(st.targets[0], ast.Name) \
+               and isinstance(st.value, ast.Attribute) and isinstance(st.value.value, ast.Name) and st.value.value.id == 'self' \
+               and st.value.attr in ports and stores.get(st.targets[0].id) == 1 \
+               and loads_in(body[i + 1:], st.targets[0].id) == total_loads(st.targets[0].id):
+                x, attr = st.targets[0].id, st.value.attr
+                class R(ast.NodeTransformer):
+                    def visit_Name(self, n):
+                        if n.id == x and isinstance(n.ctx, ast.Load):
+                            return ast.Attribute(value=ast.Name(id='self', ctx=ast.Load()), attr=attr, ctx=ast.Load())
+                        return n
+                body[i + 1:] = [ast.fix_missing_locations(R().visit(s2)) for s2 in body[i + 1:]]
+                changed[0] = True
+                i += 1; continue
+            if isinstance(st, ast.If):
+                st = ast.If(test=st.test, body=block(st.body), orelse=block(st.orelse))
+            elif isinstance(st, ast.For):
+                st = ast.For(target=st.target, iter=st.iter, body=block(st.body), orelse=block(st.orelse), lineno=0)
+            out.append(ast.fix_missing_locations(st)); i += 1
+        return out
+    new = copy.deepcopy(fdef)
+    new.body = block(new.body)
+    return new if changed[0] else fdef
 
 
 class Tr:
@@ -575,7 +818,9 @@ class Tr:
 
 def translate_method(ci, mname, kind, prefix=None):
     """returns (coq_text, signature_dict)"""
-    m = ci.methods[mname]
+    m = inline_helpers(ci.methods[mname], getattr(ci, 'cdef', None), getattr(ci, 'tree', None))
+    m = unroll_literal_loops(m)
+    m = propagate_port_aliases(m, ci)
     tr = Tr(ci, mname, kind)
     env, lines = {}, []
     for k in tr.assigned(m.body):
@@ -717,6 +962,9 @@ def wire_ops(repo):
             try:
                 m = [f for f in c.body if isinstance(f, ast.FunctionDef) and f.name == mname][0]
                 if [a.arg for a in m.args.args] != ['self', 'val']: raise Unsupported('signature')
+                base = find_class(tree, 'Wire') if cls == 'BidirWire' else None          # BidirWire inherits Wire's private helpers
+                cc = c if base is None else ast.ClassDef(name=cls, bases=[], keywords=[], body=list(base.body) + list(c.body), decorator_list=[])
+                m = inline_helpers(m, cc, tree)
                 ci = ClassInfo(ast.ClassDef(name=cls, bases=[], keywords=[], body=[], decorator_list=[]))
                 ci.attrs = ['width']
                 tr = Tr(ci, mname, 'func')
@@ -810,6 +1058,7 @@ def gen_group(repo, items, modname, extra_import=''):
                 if isinstance(tree, Exception): raise Unsupported('parse: %s' % tree)
                 fd = find_func(tree, cls, fn)
                 if fd is None: raise Unsupported('not found')
+                fd = inline_helpers(fd, find_class(tree, cls) if cls else None, tree)
                 t, s = translate_func(fd, nm)
                 text.append(t); sigs[nm] = s
             except (Unsupported, AttributeError) as ex:
@@ -822,6 +1071,7 @@ def gen_group(repo, items, modname, extra_import=''):
             c = find_class(tree, cls)
             if c is None: raise Unsupported('class not found')
             ci = ClassInfo(c)
+            ci.cdef, ci.tree = c, tree
             if mname not in ci.methods: raise Unsupported('method not found')
             t, s = translate_method(ci, mname, kind)
             text.append(t); sigs[nm] = s
